@@ -5,9 +5,13 @@ agent/consul/state/txn.go `txnDispatch`, `TxnRW`, `TxnRO`); helper lemmas: CV/Pr
 `workState idx s ops` is the left fold of the operations over the working copy (`stepState`: an
 operation that fails leaves the copy as it was and the dispatcher goes on), `resultsFrom` /
 `errorsFrom` are the results / (position, error) pairs of that fold.
+Second part (round 5): the layers above the store — `Txn.preCheck` / `Txn.Apply` / `Txn.Read` /
+`FilterTxnResults` (agent/consul/txn_endpoint.go, filter.go) and the routing of the HTTP handler
+(agent/txn_endpoint.go), model CV/Store/TxnEndpoint.lean, helper lemmas CV/Proofs/StoreTxnEndpoint.lean.
 -/
 import CV.Proofs.StoreTxn
 import CV.Proofs.StoreFuel
+import CV.Proofs.StoreTxnEndpoint
 namespace CV.Store
 open CV
 
@@ -189,6 +193,155 @@ theorem txn_never_reports_fuel (s : State) (idx : Nat) (ops : List TxnOp) :
   obtain ⟨op, -, hstep⟩ := (txn_error_positions s idx ops p .fuel).mp hpe
   exact txnStep_nofuel _ _ _ hstep
 
+
+/-! ### the layers above the store: RPC endpoint (pre-check, ACLs, Raft, result filter) and HTTP routing -/
+
+/-- All or nothing at the RPC endpoint (`Txn.Apply`): whatever the token may do, if the answer carries
+    any error — from the pre-check or from the state store — the WHOLE state is the one before and no
+    result is returned. -/
+theorem endpoint_all_or_nothing (a : Authz) (s : State) (idx : Nat) (ops : List TxnOp)
+    (h : (txnApply a s idx ops).errors ≠ []) :
+    (txnApply a s idx ops).state = s ∧ (txnApply a s idx ops).results = [] := by
+  unfold txnApply at h ⊢
+  cases hp : preCheck a s ops with
+  | nil =>
+    simp only [hp] at h ⊢
+    have h' : (txnRW s idx (ops.map normOp)).2.2 ≠ [] := by
+      intro hc; rw [hc] at h; simp at h
+    obtain ⟨h1, h2⟩ := txn_all_or_nothing s idx (ops.map normOp) h'
+    exact ⟨h1, by rw [h2]; rfl⟩
+  | cons p ps => simp
+
+/-- A transaction the pre-check refuses (a permission is missing, a key / node / service name is
+    malformed, the key is under a lock delay) never reaches Raft: no log entry, no index consumed,
+    state and lock delays untouched, and every reported error is a pre-check error. Conversely a
+    transaction that was written to the log had passed the pre-check. -/
+theorem endpoint_precheck_blocks_raft (a : Authz) (s : State) (idx : Nat) (ops : List TxnOp) :
+    (preCheck a s ops ≠ [] →
+      (txnApply a s idx ops).raft = false ∧ (txnApply a s idx ops).state = s ∧
+      (txnApply a s idx ops).results = [] ∧ (txnApply a s idx ops).errors ≠ [] ∧
+      ∀ pe ∈ (txnApply a s idx ops).errors, ∃ e, pe.2 = .pre e) ∧
+    ((txnApply a s idx ops).raft = true → preCheck a s ops = []) := by
+  unfold txnApply
+  cases hp : preCheck a s ops with
+  | nil => simp
+  | cons p ps =>
+    refine ⟨fun _ => ⟨rfl, rfl, rfl, by simp, ?_⟩, by simp⟩
+    exact preCheck_pre_errors_only (p :: ps)
+
+/-- An endpoint transaction without errors passed the pre-check, is exactly the left fold of its
+    (normalised) operations at the index of its single Raft entry, and returns the results of that fold
+    minus the ones the token may not read — in their original order. -/
+theorem endpoint_commit_is_fold (a : Authz) (s : State) (idx : Nat) (ops : List TxnOp)
+    (h : (txnApply a s idx ops).errors = []) :
+    preCheck a s ops = [] ∧ (txnApply a s idx ops).raft = true ∧
+    (txnApply a s idx ops).state = (ops.map normOp).foldl (stepState idx) s ∧
+    (txnApply a s idx ops).results = filterResults a (resultsFrom idx s (ops.map normOp)) := by
+  unfold txnApply at h ⊢
+  cases hp : preCheck a s ops with
+  | nil =>
+    simp only [hp] at h ⊢
+    have h' : (txnRW s idx (ops.map normOp)).2.2 = [] := by simpa using h
+    obtain ⟨h1, h2, -⟩ := txn_commit_is_fold s idx (ops.map normOp) h'
+    exact ⟨trivial, trivial, h1, by rw [h2]⟩
+  | cons p ps => simp [hp] at h
+
+/-- What a token may SEE never changes what a transaction DOES: two callers whose operations both
+    pass the pre-check get the same state, the same Raft entry and the same errors; only the returned
+    results may differ (each a sub-list of the unfiltered results). -/
+theorem endpoint_acl_cannot_change_effect (a b : Authz) (s : State) (idx : Nat) (ops : List TxnOp)
+    (ha : preCheck a s ops = []) (hb : preCheck b s ops = []) :
+    (txnApply a s idx ops).state = (txnApply b s idx ops).state ∧
+    (txnApply a s idx ops).errors = (txnApply b s idx ops).errors ∧
+    (txnApply a s idx ops).state = (txnRW s idx (ops.map normOp)).1 := by
+  unfold txnApply
+  simp [ha, hb]
+
+/-- `FilterTxnResults` only hides: what is returned is a sub-list (order kept) of the transaction's
+    results, every returned result is readable with the token, and a token that may read everything
+    gets them all. -/
+theorem filter_only_hides (a : Authz) (rs : List TxnRes) :
+    (filterResults a rs).Sublist rs ∧ (∀ r ∈ filterResults a rs, resVisible a r = true) ∧
+    filterResults Authz.all rs = rs := by
+  refine ⟨List.filter_sublist, fun r hr => (List.mem_filter.mp hr).2, ?_⟩
+  unfold filterResults
+  rw [List.filter_eq_self]
+  intro r _
+  cases r <;> simp [resVisible, Authz.all]
+
+/-- The leader's lock delay is enforced BEFORE Raft: a transaction that tries to lock a key under a
+    lock delay is refused by the pre-check at that position, whatever the token. -/
+theorem endpoint_lock_under_delay_refused (a : Authz) (s : State) (e : KV) (h : e.key ∈ s.loc.delayKeys) :
+    (preCheckOp a s (.kv .lock e)).isSome = true := by
+  simp only [preCheckOp, kvPreApply]
+  split
+  · rfl
+  · cases hw : a.keyWrite e.key <;> simp [allow, hw, h]
+
+/-- `Txn.Read` never modifies state: an answer without errors means that every (normalised) operation
+    ran as a pure read — on the state before it answered exactly what `TxnRW` answers and left the
+    working copy as it was. (An answer with errors returns no results; there is no state to return.) -/
+theorem endpoint_read_accepts_only_pure (a : Authz) (s : State) (ops : List TxnOp) (rs : List TxnRes) (f : Bool)
+    (h : txnRead a s ops = (rs, [], f)) :
+    preCheck a s ops = [] ∧ ∀ op ∈ ops.map normOp, ∃ r, txnStep s 0 op = .ok (s, r) := by
+  unfold txnRead at h
+  cases hp : preCheck a s ops with
+  | nil =>
+    simp only [hp] at h
+    have he : (txnRO s (ops.map normOp)).2 = [] := by
+      have := congrArg (fun t => t.2.1) h
+      simpa using this
+    refine ⟨rfl, ?_⟩
+    intro op hop
+    obtain ⟨r, hr⟩ := txnRO_no_errors s (ops.map normOp) he op hop
+    exact ⟨r, txn_ro_never_writes s op r hr⟩
+  | cons p ps => simp [hp] at h
+
+/-- The HTTP handler sends a request down the read-only route exactly when none of its operations is
+    a write verb, i.e. exactly when every operation is one of the model's read verbs (`TxnOp.isRead`).
+    This discharges the hypothesis of `txn_ro_is_txn_rw_on_reads` for everything the HTTP layer routes
+    to `Txn.Read`: such a request cannot change the state even if it were run as a read-write
+    transaction. -/
+theorem http_read_route_iff_reads (ops : List TxnOp) :
+    (ops.filter TxnOp.httpWrite).length = 0 ↔ ∀ op ∈ ops, op.isRead = true :=
+  no_httpWrite_iff_reads ops
+
+theorem http_read_route_is_pure (a : Authz) (s : State) (idx : Nat) (ops : List TxnOp)
+    (rs : List TxnRes) (es : List (Nat × EpErr)) (f : Bool) (h : httpTxn a s idx ops = .read rs es f) :
+    (∀ op ∈ ops, op.isRead = true) ∧ (txnRW s idx (ops.map normOp)).1 = s ∧
+    txnRO s (ops.map normOp) = (txnRW s 0 (ops.map normOp)).2 := by
+  unfold httpTxn at h
+  split at h
+  · simp at h
+  · split at h
+    · next hw =>
+      have hr := (no_httpWrite_iff_reads ops).mp hw
+      have hr' : ∀ op ∈ ops.map normOp, op.isRead = true := by
+        intro op hop
+        obtain ⟨o, ho, rfl⟩ := List.mem_map.mp hop
+        rw [isRead_normOp]; exact hr o ho
+      exact ⟨hr, read_only_txn_changes_nothing s idx _ hr', (txn_ro_is_txn_rw_on_reads s _ hr').1⟩
+    · simp at h
+
+/-- Over HTTP the state changes only when the request was routed to `Txn.Apply`, passed the pre-check,
+    was written to Raft and reported no error; an over-long operation list (> 128) is refused outright. -/
+theorem http_state_changes_only_by_clean_apply (a : Authz) (s : State) (idx : Nat) (ops : List TxnOp)
+    (h : (httpTxn a s idx ops).state s ≠ s) :
+    ops.length ≤ maxTxnOps ∧ ∃ o, httpTxn a s idx ops = .apply o ∧ o.errors = [] ∧ o.raft = true := by
+  unfold httpTxn at h ⊢
+  split
+  · next hl => simp [hl, HttpOut.state] at h
+  · next hl =>
+    refine ⟨by omega, ?_⟩
+    split
+    · next hw => simp [hl, hw, HttpOut.state] at h
+    · next hw =>
+      simp only [hl, hw, if_false, HttpOut.state] at h
+      refine ⟨_, rfl, ?_⟩
+      by_cases he : (txnApply a s idx ops).errors = []
+      · exact ⟨he, (endpoint_commit_is_fold a s idx ops he).2.1⟩
+      · exact absurd (endpoint_all_or_nothing a s idx ops he).1 h
+
 /-! ### non-vacuity -/
 
 /-- a pre-state with a node, a session with lock delay, a locked key (test state, built by `replay`) -/
@@ -214,5 +367,27 @@ def c05Witness : List TxnOp :=
 #guard (txnRW c05Demo 4 (c05Witness.take 1)).1.kvs.map (fun e => (e.session, e.modify)) == [("", 4)]
 #guard (txnRO c05Demo [.kv .get ⟨[107], "=", 0, "", 0, 0, 0⟩]).2.isEmpty
 #guard (txnRO c05Demo [.kv .set ⟨[107], "=x", 0, "", 0, 0, 0⟩]).2 == [(0, .readOnly)]
+
+
+/-- a token that may write under `a/` only (test authorizer) -/
+def c05Tok : Authz := { Authz.all with keyWrite := fun k => k.take 2 == [97, 47], nodeWrite := fun _ => false }
+
+/- TESTS for the endpoint layer: a denied operation blocks Raft; the lock on the key under delay is refused
+   by the pre-check; a permitted transaction commits; filtering hides the unreadable result only; the HTTP
+   routing sends read verbs to the read route and refuses 129 operations. -/
+#guard (txnApply c05Tok c05Demo 4 [.kv .set ⟨[107], "=v", 0, "", 0, 0, 0⟩]).raft == false
+#guard (txnApply c05Tok c05Demo 4 [.kv .set ⟨[107], "=v", 0, "", 0, 0, 0⟩]).errors == [(0, .pre .denied)]
+#guard (txnApply c05Tok c05Demo 4 [.kv .set ⟨[97, 47, 98], "=v", 0, "", 0, 0, 0⟩]).errors == []
+#guard (txnApply c05Tok c05Demo 4 [.kv .set ⟨[97, 47, 98], "=v", 0, "", 0, 0, 0⟩]).state != c05Demo
+#guard (preCheck Authz.all (txnRW c05Demo 4 (c05Witness.take 1)).1 [.kv .lock ⟨[107], "=v", 0, "aaaaaaaa-0000-0000-0000-000000000001", 0, 0, 0⟩])
+         == [(0, .lockDelay)]
+#guard (txnApply Authz.all c05Demo 4 c05Witness).errors == [(1, .st .indexCheckFailed)]
+#guard (txnApply Authz.all c05Demo 4 c05Witness).raft == true
+#guard (txnApply Authz.all c05Demo 4 c05Witness).state == c05Demo
+#guard (filterResults { Authz.all with keyRead := fun _ => false } [.kv ⟨[107], "=", 0, "", 0, 0, 0⟩ true, .node ⟨"n1", "", "", 0, 0⟩]).length == 1
+#guard (match httpTxn Authz.all c05Demo 4 [.kv .get ⟨[107], "=", 0, "", 0, 0, 0⟩] with | .read _ [] _ => true | _ => false)
+#guard (match httpTxn Authz.all c05Demo 4 (List.replicate 129 (.kv .get ⟨[107], "=", 0, "", 0, 0, 0⟩)) with | .tooMany => true | _ => false)
+#guard (normOp (.service .set ⟨"n1", "", "web", 80, 0, 0⟩)) == .service .set ⟨"n1", "web", "web", 80, 0, 0⟩
+#guard parsesAsUUID "11111111-aaaa-0000-0000-000000000001" && !parsesAsUUID "zz" && !parsesAsUUID "1111111g-aaaa-0000-0000-000000000001"
 
 end CV.Store
